@@ -79,8 +79,16 @@ def case_term(c):
         m = SMODE[mode] if mode != -1 else "SRaw"
         ss = "[" + ";".join(bl(s) for s in c.get("strs", [])) + "]"
         return "(check_string %s %s %s %s %s)" % (d, cc, m, ss, real)
-    if k in ("record", "file"):
+    if k == "file":
         return None     # direct oracle only
+    if k == "record":
+        rj = c.get("recj")
+        if not rj or c.get("oracle"):
+            return None
+        fs = "[" + ";".join("(%s, %d)" % (bl(f["n"]), f["ty"]) for f in rj["schema"]) + "]"
+        cs = "[" + ";".join("(%d, (%d, (%d, (%s, (%s, %s)))))" % (x["len"], x["nil"], x["off"], bl(x["val"]), bl(x["bm"]), zl(x["offs"]))
+                            for x in rj["cols"]) + "]"
+        return "(check_record (%s, %s) %s)" % (fs, cs, bl(c["hex"]))
     if k == "rows":
         if not c.get("rowsj") or c.get("oracle") in ("decode-panic", "decode-error", "roundtrip-differs"):
             return None
@@ -445,7 +453,7 @@ def evaluate(ck, cases):
 
 
 def slim(c):
-    d = {k: v for k, v in c.items() if k not in ("hex", "c", "d", "dv", "segs")}
+    d = {k: v for k, v in c.items() if k not in ("hex", "c", "d", "dv", "segs", "recj", "rowsj")}
     if len(c.get("hex", "")) <= 400:
         d["hex"] = c.get("hex", "")
     return d
